@@ -19,12 +19,16 @@
   requests as atomic steps (a critical section under Check.mu, one atomic
   load/store of ReadyGate.ready), a request being `snapshot; read g₁; …; read gₙ; respond`.
 -/
-namespace Influx.CheckM
+import Influx.Generated.CheckConsts
 
-/-- kit/check.Status is a string type; only "pass" and "fail" are declared -/
+namespace Influx.CheckM
+open Influx.Generated.CheckConsts (statusStarting statusReady messageHealthy)
+
+/-- kit/check.Status is a string type; only "pass" and "fail" are declared.
+    The constants are regenerated from kit/check/check.go and http/check_handler.go on every run. -/
 abbrev Status := String
-def pass : Status := "pass"
-def fail : Status := "fail"
+def pass : Status := Influx.Generated.CheckConsts.StatusPass
+def fail : Status := Influx.Generated.CheckConsts.StatusFail
 
 /-- what one checker answers: Response.Name / Status / Message -/
 structure Res where
@@ -135,7 +139,7 @@ def evaluate (old : Bool) (cs : List Cell) : Status × List Res :=
 
 /-- firstFailureMessage -/
 def firstFailureMessage : List Res → String
-  | [] => "starting"
+  | [] => statusStarting
   | r :: rs => if r.status = fail then (if r.msg ≠ "" then r.msg else fail) else firstFailureMessage rs
 
 /-- failingChecks -/
@@ -157,12 +161,12 @@ deriving Repr
 /-- HealthReadyHandler.writeHealth -/
 def health (old : Bool) (s : St) : HealthResp :=
   let (o, rs) := evaluate old s.health
-  if o = fail then ⟨503, o, firstFailureMessage rs, rs⟩ else ⟨200, o, "healthy", rs⟩
+  if o = fail then ⟨503, o, firstFailureMessage rs, rs⟩ else ⟨200, o, messageHealthy, rs⟩
 
 /-- HealthReadyHandler.writeReady -/
 def ready (old : Bool) (s : St) : ReadyResp :=
   let (o, rs) := evaluate old s.ready
-  if o = fail then ⟨503, "starting", failingChecks rs⟩ else ⟨200, "ready", []⟩
+  if o = fail then ⟨503, statusStarting, failingChecks rs⟩ else ⟨200, statusReady, []⟩
 
 /-! ### interleaving model (ready gates only) -/
 
@@ -192,7 +196,7 @@ deriving Repr
 def gateRes (g : String × Bool) : Res := if g.2 then ⟨g.1, pass, ""⟩ else ⟨g.1, fail, "not ready"⟩
 
 def respond (got : List Res) : ReadyResp :=
-  if overall got = fail then ⟨503, "starting", failingChecks (sortRes got)⟩ else ⟨200, "ready", []⟩
+  if overall got = fail then ⟨503, statusStarting, failingChecks (sortRes got)⟩ else ⟨200, statusReady, []⟩
 
 def updPending (ps : List Pending) (rid : Nat) (f : Pending → Pending) : List Pending :=
   ps.map fun p => if p.rid = rid then f p else p
